@@ -89,7 +89,9 @@ def stepCase (st : St) (v : Verdict) (i : Nat) (opText obs : String) : St × Ver
       -- `ResourceNode::max_avg` = peak bucket × sample_count / interval_ms × 1000, in the default reader's geometry
       let peak := node.ring.maxOfSingleBucket node.g node.rd st.nowMs .pass
       let maxavg := F64.mul (F64.div (F64.mul (F64.ofNat peak) (F64.ofNat node.rd.sc)) (F64.ofNat node.rd.iv)) (F64.ofNat 1000)
-      let v := v.expect i opText s!"sum={d} full={full} maxavg={maxavg.toStr}" obs
+      -- `qps_previous`: the default window as it was one *metric* bucket (iv / sc of the configuration) ago
+      let qp := node.ring.qpsPrevious node.g node.rd st.nowMs .pass
+      let v := v.expect i opText s!"sum={d} full={full} maxavg={maxavg.toStr} qp={qp.toStr}" obs
       -- Spec, from the touches alone and the configured numbers: bucket length ivt/sct, default window iv, global window riv
       let L := node.cfg.ivt / node.cfg.sct
       let start := st.nowMs - st.nowMs % L
@@ -99,7 +101,13 @@ def stepCase (st : St) (v : Verdict) (i : Nat) (opText obs : String) : St × Ver
       let inDef := live.filter (fun e => start - node.cfg.iv + L ≤ e.1 - e.1 % L && e.1 - e.1 % L ≤ start)
       let sPeak := inDef.foldl (fun acc e => max acc (windowSum L inDef (e.1 - e.1 % L) (e.1 - e.1 % L) .pass)) 0
       let sMax := F64.mul (F64.div (F64.mul (F64.ofNat sPeak) (F64.ofNat node.cfg.sc)) (F64.ofNat node.cfg.iv)) (F64.ofNat 1000)
-      let specObs := s!"sum={sSum} full={if full == "err" then "err" else toString sFull} maxavg={sMax.toStr}"
+      -- the previous window ends one configured metric bucket (iv / sc) before now; judged while all of it is still resident
+      let tp := st.nowMs - node.cfg.iv / node.cfg.sc
+      let startP := tp - tp % L
+      let tlast := (node.evs.map (·.1)).foldl max 0
+      let sQp := F64.div (F64.ofNat (windowSum L node.evs (startP - node.cfg.iv + L) startP .pass)) (F64.div (F64.ofNat node.cfg.iv) (F64.ofNat 1000))
+      let qpJudged := node.cfg.iv ≤ startP && (tlast - tlast % L) < (startP - node.cfg.iv + L) + node.cfg.ivt
+      let specObs := s!"sum={sSum} full={if full == "err" then "err" else toString sFull} maxavg={sMax.toStr} qp={if qpJudged then sQp.toStr else obsField obs "qp"}"
       let v := if specObs != obs then v.setViol s!"step={i} [{opText}] window geometry not as configured ({cfgStr node.cfg}): the touches so far give [{specObs}], the node reports [{obs}]" else v
       let v := if d == 0 && full != "0" && full != "err" then v.addTag "left-default-window" else v
       let v := if full == "0" then v.addTag "left-global-window" else v
